@@ -52,7 +52,8 @@ def _files(ctx):
 
 
 def _plan(ctx):
-    """[(file, name, i, j, text, valid)] — every target of the chosen files"""
+    """[(file, entries [(name, i, j, text)], valid)] — every target of the chosen files alone, every parameter
+    once out of range, mixed sets (a valid entry next to an invalid one) and sets of several valid entries"""
     if "plan" in _cache:
         return _cache["plan"]
     rnd = random.Random(ctx.seed * 13 + 5)
@@ -60,19 +61,41 @@ def _plan(ctx):
     plan = []
     for fn in _files(ctx):
         nk, ne = F.classic_dims(F.read_lines(os.path.join(par, fn)))
-        for (n, i, j) in F.all_targets(nk, ne):
-            vals = rnd.sample(F.VALID[n], 2 if ctx.thorough else 1)
-            for t in vals:
-                plan.append((fn, n, i, j, t, True))
-            if rnd.random() < (0.5 if ctx.thorough else 0.12):
-                plan.append((fn, n, i, j, rnd.choice(F.INVALID[n]), False))
+        targets = F.all_targets(nk, ne)
+        for (n, i, j) in targets:
+            for t in rnd.sample(F.VALID[n], 2 if ctx.thorough else 1):
+                plan.append((fn, [(n, i, j, t)], True))
+        first = {}
+        for (n, i, j) in targets:
+            first.setdefault(n, (n, i, j))
+        for n, (_, i, j) in first.items():
+            bad = (n, i, j, rnd.choice(F.INVALID[n]))
+            plan.append((fn, [bad], False))
+            m, mi, mj = rnd.choice([t for t in targets if t[0] != n])
+            plan.append((fn, [(m, mi, mj, rnd.choice(F.VALID[m])), bad], False))     # rejected as a whole
+        for _ in range(12 if ctx.thorough else 4):                                  # several valid entries at once
+            ts = rnd.sample(targets, rnd.randrange(2, 5)) + [("TSUM", rnd.randrange(1, ne + 1), 0)]
+            ts = list(dict.fromkeys(ts))
+            plan.append((fn, [(n, i, j, rnd.choice(F.VALID[n])) for n, i, j in ts], True))
         # stage / organ beyond the file's counts: invalid as a whole
         if ne < 9:
-            plan.append((fn, "TSUM", ne + 1, 0, "300", False))
+            plan.append((fn, [("TSUM", ne + 1, 0, "300")], False))
         if nk < 5:
-            plan.append((fn, "PRO", 1, nk + 1, "0.5", False))
+            plan.append((fn, [("PRO", 1, nk + 1, "0.5"), ("MAXAMAX", 0, 0, "44")], False))
     _cache["plan"] = plan
     return plan
+
+
+def _edits(lines0, doc0, entries):
+    ed, doc = lines0, copy.deepcopy(doc0)
+    for n, i, j, t in entries:
+        ed = F.edit_classic(ed, n, i, j, t)
+        doc = F.edit_yaml(doc, n, i, j, t)
+    return ed, doc
+
+
+def _label(entries):
+    return " ".join("%s=%s" % (F.override_key(n, i, j), t) for n, i, j, t in entries)
 
 
 def correspond(ctx):
@@ -88,23 +111,23 @@ def correspond(ctx):
         return len(jobs) - 1
 
     base = {}
-    for k, (fn, n, i, j, text, valid) in enumerate(_plan(ctx)):
+    for k, (fn, entries, valid) in enumerate(_plan(ctx)):
         p = os.path.join(par, fn)
         if fn not in base:
             base[fn] = (open(p, "rb").read(), F.read_lines(p), yaml.safe_load(open(p + ".yml", encoding="utf-8")), job("record", p + ".yml"))
         data, lines0, doc0, rid0 = base[fn]
-        key = F.override_key(n, i, j)
+        args = [[F.override_key(n, i, j), t] for n, i, j, t in entries]
         prior, cont = rnd.choice([(0, False), (1, False), (1, True)])
-        r = {"fn": fn, "n": n, "i": i, "j": j, "text": text, "valid": valid, "key": key, "prior": prior, "cont": cont, "data": data, "rid0": rid0}
-        r["a"] = job("classic", p, prior, cont, [[key, text]], fn)
-        r["ya"] = job("yaml", p + ".yml", prior, cont, [[key, text]], fn + ".yml")
+        r = {"fn": fn, "entries": entries, "valid": valid, "label": _label(entries), "args": args, "prior": prior, "cont": cont,
+             "data": data, "rid0": rid0}
+        r["a"] = job("classic", p, prior, cont, args, fn)
+        r["ya"] = job("yaml", p + ".yml", prior, cont, args, fn + ".yml")
         if valid:
-            ed = F.edit_classic(lines0, n, i, j, text)
+            ed, doc = _edits(lines0, doc0, entries)
             r["edata"] = b"\n".join(ed) + b"\n"
             ep = os.path.join(wd, "e%d" % k)
             open(ep, "wb").write(r["edata"])
             r["b"] = job("classic", ep, prior, cont)
-            doc = F.edit_yaml(copy.deepcopy(doc0), n, i, j, text)
             open(ep + ".yml", "wb").write(yaml.safe_dump(doc, sort_keys=False, allow_unicode=True).encode())
             r["yr"] = job("record", ep + ".yml")
             r["yb"] = job("yaml", ep + ".yml", prior, cont)
@@ -117,25 +140,29 @@ def correspond(ctx):
     cs = CC.CaseSet(per_shard=45 if not ctx.thorough else 120)
     seen = set()
     for k, r in enumerate(rows):
-        d = "%s %s=%s prior=%d cont=%s" % (r["fn"], r["key"], r["text"], r["prior"], r["cont"])
-        args = [(r["key"], r["text"])]
+        d = "%s %s prior=%d cont=%s" % (r["fn"], r["label"], r["prior"], r["cont"])
+        args = [tuple(x) for x in r["args"]]
         pb, cb = CC.b(r["prior"]), CC.b(r["cont"])
         cs.add(lambda file, r=r: "CClassic %d%%nat %s %s %s %s" % (file(r["data"]), pb, cb, CC.args_term(args), CC.obs_term(res[r["a"]])),
                "override " + d)
         cs.add(lambda file, r=r: "CYaml %s %s %s %s %s" % (CC.rec_term(res[r["rid0"]]), pb, cb, CC.args_term(args), CC.obs_term(res[r["ya"]])),
                "override-yaml " + d)
         if r["valid"]:
-            cs.add(lambda file, r=r: 'CEdit %d%%nat "%s" %d%%nat %d%%nat "%s" %d%%nat' % (file(r["data"]), r["n"], r["i"], r["j"], r["text"], file(r["edata"], r["data"])),
-                   "edit " + d)
+            if len(r["entries"]) == 1:
+                n, i, j, text = r["entries"][0]
+                cs.add(lambda file, r=r: 'CEdit %d%%nat "%s" %d%%nat %d%%nat "%s" %d%%nat' % (file(r["data"]), n, i, j, text, file(r["edata"], r["data"])),
+                       "edit " + d)
             if ctx.thorough or k % 2 == 0:
                 cs.add(lambda file, r=r: "CClassic %d%%nat %s %s None %s" % (file(r["edata"], r["data"]), pb, cb, CC.obs_term(res[r["b"]])), "edited " + d)
                 cs.add(lambda file, r=r: "CYaml %s %s %s None %s" % (CC.rec_term(res[r["yr"]]), pb, cb, CC.obs_term(res[r["yb"]])), "edited-yaml " + d)
-        seen.add((r["fn"], r["key"], r["text"], r["prior"], r["cont"]))
-        c.bump("file=" + r["fn"]); c.bump("kind=" + ("base" if not r["i"] else "stage" if not r["j"] else "organ"))
+        seen.add((r["fn"], r["label"], r["prior"], r["cont"]))
+        c.bump("file=" + r["fn"])
+        c.bump("kind=" + ("set-of-%d" % len(r["entries"]) if len(r["entries"]) > 1 else
+                          "base" if not r["entries"][0][1] else "stage" if not r["entries"][0][2] else "organ"))
         c.bump("valid" if r["valid"] else "invalid"); c.bump("prior=%s%s" % ("junk" if r["prior"] else "zero", "+perennial-continuation" if r["cont"] else ""))
     CC.evaluate(ctx, c, cs, "Cases_C18")
     c.nontrivial = len(seen)
-    c.samples = ["%s %s=%s (%s)" % (r["fn"], r["key"], r["text"], "valid" if r["valid"] else "out of range") for r in rows[:3] + rows[-3:]]
+    c.samples = ["%s %s (%s)" % (r["fn"], r["label"], "valid" if r["valid"] else "out of range") for r in rows[:3] + rows[-3:]]
     c.notes.append("compared per case: the 369 floats and 25+ integers of the crop state (flat_state), bit for bit")
     return c
 
@@ -158,18 +185,18 @@ def oracle(ctx, search):
             for x, y, w in ((r["a"], r["b"], "classic"), (r["ya"], r["yb"], "yaml")):
                 ox, oy = res.get(x, {}), res.get(y, {})
                 if ox.get("f") != oy.get("f") or ox.get("z") != oy.get("z") or ("err" in ox) != ("err" in oy):
-                    fails.append(Fail(key="loaded-state:%s:%s:%s=%s" % (w, r["fn"], r["key"], r["text"]),
+                    fails.append(Fail(key="loaded-state:%s:%s:%s" % (w, r["fn"], r["label"]),
                                       what="crop state after %s differs from the state read from the %s file" %
                                            ("the override" if r["valid"] else "the rejected override", "edited" if r["valid"] else "unchanged"),
                                       prior=r["prior"], perennial_continuation=r["cont"]))
     # 2. paired whole runs
     plan = _plan(ctx)
     if search:      # every value of every target of the chosen files
-        plan = [(fn, n, i, j, t, True) for fn in _files(ctx)
+        plan = [(fn, [(n, i, j, t)], True) for fn in _files(ctx)
                 for (n, i, j) in F.all_targets(*F.classic_dims(F.read_lines(os.path.join(par, fn)))) for t in F.VALID[n]] + \
-               [p for p in plan if not p[5]]
+               [p for p in plan if not p[2] or len(p[1]) > 1]
     projects, lines, pairs = {}, [], []
-    for k, (fn, n, i, j, text, valid) in enumerate(plan):
+    for k, (fn, entries, valid) in enumerate(plan):
         abbr, var = [(a, v) for f, a, v in F.classic_files(par) if f == fn][0]
         if fn not in projects:
             name = "ov%d" % len(projects)
@@ -179,12 +206,11 @@ def oracle(ctx, search):
             basey_i = len(lines); lines.append(F.line_for(name, projects[fn][1], extra="CropParameterFormat=yml"))
             projects[fn] += (base_i, basey_i)
         name, P, lines0, doc0, base_i, basey_i = projects[fn]
-        key = F.override_key(n, i, j)
-        a = len(lines); lines.append(F.line_for(name, P, extra="CropFile=%s %s=%s" % (fn, key, text)))
-        ya = len(lines); lines.append(F.line_for(name, P, extra="CropParameterFormat=yml CropFile=%s.yml %s=%s" % (fn, key, text)))
+        key, text = _label(entries), ""
+        a = len(lines); lines.append(F.line_for(name, P, extra="CropFile=%s %s" % (fn, key)))
+        ya = len(lines); lines.append(F.line_for(name, P, extra="CropParameterFormat=yml CropFile=%s.yml %s" % (fn, key)))
         if valid:
-            ed = F.edit_classic(lines0, n, i, j, text)
-            doc = F.edit_yaml(copy.deepcopy(doc0), n, i, j, text)
+            ed, doc = _edits(lines0, doc0, entries)
             pf = F.param_folder(env, "pe%d" % k, {fn: b"\n".join(ed) + b"\n",
                                                   fn + ".yml": yaml.safe_dump(doc, sort_keys=False, allow_unicode=True).encode()})
             b_ = len(lines); lines.append(F.line_for(name, P, extra="parameter=%s" % pf))
@@ -206,12 +232,12 @@ def oracle(ctx, search):
                 continue
             if not F.same(rx, ry):
                 kind = "override-differs" if valid else "invalid-not-rejected"
-                fails.append(Fail(key="%s:%s:%s:%s=%s" % (kind, w, fn, key, text),
+                fails.append(Fail(key="%s:%s:%s:%s" % (kind, w, fn, key),
                                   what=("override on the batch line vs the same edit in the crop file: " if valid else
                                         "out-of-range override vs no override: ") + F.diff_what(rx, ry),
                                   first_difference=F.first_diff(env, "C18", x, y),
                                   replay={"cwd": "scratch copy of /repo/examples", "line_a": rx.line, "line_b": ry.line,
-                                          "edit": "file %s: %s := %s" % (fn, key, text)}))
+                                          "edit": "file %s: %s" % (fn, key)}))
         if valid and not F.same(runs[a], runs[base_i]):
             effective += 1
     ctx.extra["paired_runs"] = len(lines)
